@@ -102,7 +102,7 @@ func (e *Enc) encodeInstr(fr *Frame, ins ssa.Instruction, st *State, reach Term)
 		stateSorts[e.rootHeap(e.placeOf(addr, elem))] = e.heapSortOfPlace(e.placeOf(addr, elem))
 		return ns
 	case *ssa.Convert:
-		e.encodeConvert(fr, t, reach)
+		e.encodeConvert(fr, t, reach, st)
 		return st
 	case *ssa.ChangeType:
 		x := e.val(fr, t.X)
@@ -475,7 +475,7 @@ func (e *Enc) bitop8(op token.Token, x Term, mask uint8) Term {
 	return "(+ " + strings.Join(parts, " ") + ")"
 }
 
-func (e *Enc) encodeConvert(fr *Frame, t *ssa.Convert, reach Term) {
+func (e *Enc) encodeConvert(fr *Frame, t *ssa.Convert, reach Term, st *State) {
 	x := e.val(fr, t.X)
 	from, to := t.X.Type(), t.Type()
 	fi, fok := intInfoOf(from)
@@ -510,7 +510,17 @@ func (e *Enc) encodeConvert(fr *Frame, t *ssa.Convert, reach Term) {
 		fr.vals[t] = Val{T: v, Typ: to}
 	case fs == "Slice" && ts == "Str":
 		e.abstracted++
+		// string(b): a function of b's backing array content, offset and length (two
+		// conversions of the same slice in the same state are the same string; no
+		// extensionality across different arrays is claimed)
 		e.B.declTop("strof", "(declare-fun strof ((Array Int Int) Int Int) Str)")
+		if sl, ok := from.Underlying().(*types.Slice); ok && e.B.sortOf(sl.Elem()) == "Int" && st != nil {
+			h := e.heapOf(st, sl.Elem())
+			v := e.B.define("strofbytes", "Str", fmt.Sprintf("(strof (select %s (sarr %s)) (soff %s) (slen %s))", h, x.T, x.T, x.T))
+			e.B.assume(fmt.Sprintf("(= (strlen %s) (slen %s))", v, x.T))
+			fr.vals[t] = Val{T: v, Typ: to}
+			break
+		}
 		v := e.B.declConst("strofbytes", "Str")
 		e.B.assume(fmt.Sprintf("(= (strlen %s) (slen %s))", v, x.T))
 		fr.vals[t] = Val{T: v, Typ: to}
